@@ -290,12 +290,11 @@ class KernExporter(object):
         markings = self.markings_to_kern(el)
         kern_el = duration + pitch + markings
         if self.prev_note_time == el.start.t:
-            if self.prev_note_col_idx == col_idx:
-                # Chords in Kern
-                self.out_data[self.prev_note_row_idx, self.prev_note_col_idx] = (
-                    self.out_data[self.prev_note_row_idx, self.prev_note_col_idx]
-                    + " "
-                    + kern_el
+            if self.out_data[self.prev_note_row_idx, col_idx] != ".":
+                # Chords in Kern: this spline already has a note on this row (not
+                # necessarily the previous element: notes of other splines may come in between)
+                self.out_data[self.prev_note_row_idx, col_idx] = (
+                    self.out_data[self.prev_note_row_idx, col_idx] + " " + kern_el
                 )
             else:
                 # Same row (start.t) other spline
